@@ -155,8 +155,9 @@ def _resolve_module_name(ref: str, module: str | None) -> str | None:
         return module
 
     # Easy path, use the qualname if it's provided.
+    #   (Only a name can be a qualifier: the first dot of `list[decimal.Decimal]` is not one.)
     module = ref.split(".", maxsplit=1)[0]
-    if module != ref:
+    if module != ref and module.isidentifier():
         return module
     # Harder path, find the actual object in the stack frame, if possible.
     obj = frames.extract(ref)
